@@ -160,6 +160,7 @@ type pitKey struct {
 }
 
 type pitEnt struct {
+	retired     bool // its end-of-life effects (dead nonces) have been recorded
 	key         pitKey
 	in          map[uint64]*inRec
 	out         map[uint64]*outRec
@@ -689,6 +690,13 @@ func (r *runner) doInterest(op *Op) {
 		lookup = key.hint
 		r.ctx.Probe("hint-lookup")
 	}
+	// entries that have certainly expired by now have put their nonces into the dead nonce list, whichever
+	// Interest comes next
+	for _, e := range m.pit {
+		if !e.retired && now > e.goneBy()+reapSlack {
+			r.retire(e, now)
+		}
+	}
 	ent := m.pit[key]
 	entCertainlyGone := ent == nil || now > ent.goneBy()+reapSlack
 	entCertainlyAlive := ent != nil && !ent.uncertain && ent.satisfiedAt < 0 && r.entCertainlyAlive(ent, now)
@@ -1083,14 +1091,20 @@ func (r *runner) ensureEnt(key pitKey, now time.Duration, gone, alive bool) *pit
 
 // retire records what a certainly expired entry put into the dead nonce list.
 func (r *runner) retire(e *pitEnt, now time.Duration) {
+	if e.retired {
+		return
+	}
+	e.retired = true
 	if e.satisfiedAt < 0 {
 		r.stats.expired++
 		r.ctx.Probe("pit/expired")
-		if !e.uncertain {
-			for _, o := range e.out {
-				k := fmt.Sprintf("%s|%d", e.key.name, o.nonce)
-				r.m.dead[k] = append(r.m.dead[k], deadRec{from: e.deadline + reapSlack, until: e.deadline + time.Duration(r.sc.Config.DnlMs)*time.Millisecond})
-			}
+		// Also for an entry the model is unsure about (it may be a re-used, already satisfied entry, or hold an
+		// Interest that was possibly not accepted): every out-record stands for a forwarding that was observed,
+		// e.deadline is an upper bound of the real expiry, and the check bounds the window by the nonce's first
+		// appearance plus one dead-nonce lifetime, so the window is promised whichever way the doubt resolves.
+		for _, o := range e.out {
+			k := fmt.Sprintf("%s|%d", e.key.name, o.nonce)
+			r.m.dead[k] = append(r.m.dead[k], deadRec{from: e.deadline + reapSlack, until: e.deadline + time.Duration(r.sc.Config.DnlMs)*time.Millisecond})
 		}
 	}
 }
@@ -1355,6 +1369,11 @@ func (r *runner) doData(op *Op) {
 		e.out = map[uint64]*outRec{}
 		if e.satisfiedAt < 0 || certain {
 			e.satisfiedAt = now
+		}
+		if certain {
+			// its records are consumed and it is due for removal now: whatever is recorded in it later (if it
+			// is re-used before the reaper runs) alone decides how long it lives
+			e.deadline = now
 		}
 		e.uncertain = false
 	}
